@@ -147,7 +147,10 @@ impl Loop {
         // println!("step: {:?} => {:?}", self.loop_parameters[cur_parameter], parameters);
         let res = exe.lock().unwrap().execute_command(buf, caret, self.command, &parameters, &self.parsed_string);
         // todo: correct delay?
+        #[cfg(not(icy_engine_verif))]
         std::thread::sleep(Duration::from_millis(200 * self.delay as u64));
+        #[cfg(icy_engine_verif)]
+        crate::verif_hooks::sleep(Duration::from_millis(200 * self.delay as u64));
         if self.from < self.to {
             self.i += self.step;
         } else {
